@@ -85,8 +85,11 @@ QueensCoverVerdict(r) ==
         rowCells(rw) == {rw * n + c : c \in 0..(n - 1)}
         colCells(cl) == {rw * n + cl : rw \in 0..(n - 1)}
     IN IF Len(r.names) # NN \/ \E k \in 0..(NN - 1) : r.names[k + 1] # "v_" \o ToString(k) THEN "variable names are not v_0 .. v_(n*n-1)"
-       ELSE IF \E L \in Ls : L[1] # "cc" \/ \E i \in DOMAIN L[3] : L[3][i][1] # "var" THEN "formula is not a conjunction of counting lists over variables"
-       ELSE IF \E L \in Ls : ~one(L) THEN "a counting list is not '<= 1' / '= 1'"
+       \* the structural argument below applies to formulas that are conjunctions of '<= 1' / '= 1' lists over
+       \* variables; another (possibly equally correct) shape is not judged here -- no alarm, only a note
+       ELSE IF \E L \in Ls : L[1] # "cc" THEN (IF PrintT("NOTE|queens_cover not applicable: other formula shape") THEN "" ELSE "")
+       ELSE IF \E L \in Ls : \E i \in DOMAIN L[3] : L[3][i][1] # "var" THEN (IF PrintT("NOTE|queens_cover not applicable: other formula shape") THEN "" ELSE "")
+       ELSE IF \E L \in Ls : ~one(L) THEN (IF PrintT("NOTE|queens_cover not applicable: other list kinds") THEN "" ELSE "")
        \* no list over-constrains: its cells attack each other pairwise (so every solution satisfies it)
        ELSE IF \E L \in Ls : \E c1 \in cells(L) : \E c2 \in cells(L) : c1 # c2 /\ ~Attacks(c1, c2, n) THEN "a list joins cells that do not attack each other"
        ELSE IF \E L \in Ls : L[2] = "exactly" /\ cells(L) \notin ({rowCells(x) : x \in 0..(n - 1)} \cup {colCells(x) : x \in 0..(n - 1)})
@@ -129,8 +132,10 @@ SudokuCoverVerdict(r) ==
                     \cup {boxUnit(b, dgt) : b \in boxes, dgt \in 1..sq}
         hintVars == {V(i - 1, r.hints[i]) : i \in {j \in DOMAIN r.hints : r.hints[j] # 0}}
         singles == {L[2] : L \in {M \in Ls : M[1] = "var"}}
-    IN IF \E L \in Ls : L[1] \notin {"cc", "var"} THEN "formula is not a conjunction of hints and counting lists"
-       ELSE IF \E L \in lists : L[2] # "exactly" \/ L[4] # 1 \/ \E i \in DOMAIN L[3] : L[3][i][1] # "var" THEN "a counting list is not '= 1' over variables"
+    IN \* only the exact-cover shape is judged structurally (another correct encoding raises no alarm here)
+       IF \E L \in Ls : L[1] \notin {"cc", "var"} THEN (IF PrintT("NOTE|sudoku_cover not applicable: other formula shape") THEN "" ELSE "")
+       ELSE IF \E L \in lists : L[2] # "exactly" \/ L[4] # 1 \/ \E i \in DOMAIN L[3] : L[3][i][1] # "var"
+            THEN (IF PrintT("NOTE|sudoku_cover not applicable: other list kinds") THEN "" ELSE "")
        ELSE IF \E U \in expected : U \notin units THEN "a cell / row / column / box rule is missing"
        ELSE IF \E U \in units : U \notin expected THEN "a list is not a cell / row / column / box rule"
        ELSE IF singles # hintVars THEN "the givens are not exactly the digits of the puzzle text"
